@@ -24,7 +24,11 @@ def dbl (s : Bytes) : Msg := Msg.leafStr tFloat s
 def int (i : Int) : Msg := Msg.leafInt tInt i
 def arr (xs : List Msg) : Msg := Msg.agg tArray xs
 def mp (xs : List Msg) : Msg := Msg.agg tMap xs
-def lit (s : String) : Msg := blob s.toUTF8.toList
+def sAttributes : Bytes := [97, 116, 116, 114, 105, 98, 117, 116, 101, 115]  -- "attributes"
+def sWarning : Bytes := [119, 97, 114, 110, 105, 110, 103]  -- "warning"
+def sFormat : Bytes := [102, 111, 114, 109, 97, 116]  -- "format"
+def sSTRING : Bytes := [83, 84, 82, 73, 78, 71]  -- "STRING"
+def sValues : Bytes := [118, 97, 108, 117, 101, 115]  -- "values"
 
 /-- a number the server sends as text in RESP2 and as a double in RESP3 -/
 def num : Proto → Bytes → Msg
@@ -88,14 +92,14 @@ def ftDoc2 (ws wa : Bool) (d : SDoc) : List Msg :=
 
 /-- RESP3: one result record -/
 def ftDoc3 (ws wa : Bool) (d : SDoc) : Msg :=
-  mp ([lit "id", blob d.key] ++ (if wa then [lit "extra_attributes", mp (flatKV d.attrs)] else []) ++
-      (if ws then [lit "score", dbl d.score] else []) ++ [lit "values", arr []])
+  mp ([blob sId, blob d.key] ++ (if wa then [blob sExtra, mp (flatKV d.attrs)] else []) ++
+      (if ws then [blob sScore, dbl d.score] else []) ++ [blob sValues, arr []])
 
 def ftSearch : Proto → Bool → Bool → Int → List SDoc → Msg
   | .r2, ws, wa, total, ds => arr (int total :: ds.flatMap (ftDoc2 ws wa))
   | .r3, ws, wa, total, ds =>
-    mp [lit "attributes", arr [], lit "warning", arr [], lit "total_results", int total,
-        lit "format", lit "STRING", lit "results", arr (ds.map (ftDoc3 ws wa))]
+    mp [blob sAttributes, arr [], blob sWarning, arr [], blob sTotal, int total,
+        blob sFormat, blob sSTRING, blob sResults, arr (ds.map (ftDoc3 ws wa))]
 
 def ftDocExpect (ws wa : Bool) (d : SDoc) : FtDoc :=
   ⟨if wa then some d.attrs else none, d.key, if ws then .str d.score else .int 0⟩
@@ -143,9 +147,9 @@ abbrev Row := List (Bytes × Bytes)
 def ftAgg : Proto → Int → List Row → Msg
   | .r2, total, rows => arr (int total :: rows.map fun r => arr (flatKV r))
   | .r3, total, rows =>
-    mp [lit "attributes", arr [], lit "warning", arr [], lit "total_results", int total,
-        lit "format", lit "STRING",
-        lit "results", arr (rows.map fun r => mp [lit "extra_attributes", mp (flatKV r), lit "values", arr []])]
+    mp [blob sAttributes, arr [], blob sWarning, arr [], blob sTotal, int total,
+        blob sFormat, blob sSTRING,
+        blob sResults, arr (rows.map fun r => mp [blob sExtra, mp (flatKV r), blob sValues, arr []])]
 
 def ftAggExpect (total : Int) (rows : List Row) : Int × List (Option (Log Bytes)) := (total, rows.map some)
 
